@@ -26,6 +26,15 @@ func checkC10(c *Ctx, r *Report) {
 	c10R3(c, r)
 	c10R4(c, r)
 	c17R6as(c, r, "C10.R5.rsa-limits")
+	// the name pre-checks go through equal(); the canonical form is computed on copies
+	r.rule("C10.R1.name-eq", 1, "the owner / signer name pre-checks compare through equal(), which folds exactly A-Z on both sides")
+	foldRule(c, r, "C10.R1.name-eq")
+	r.rule("C10.R3.copy-faithful", 81, "the copy rawSignatureData canonicalises carries field i of the record in field i")
+	for _, t := range c.rrTypes() {
+		if t.Name != "PrivateRR" {
+			c.checkCopyPos(r, "C10.R3.copy-faithful", t)
+		}
+	}
 }
 
 // c17R6as runs the RSA size-limit rule under another rule id (shared by C10, C17, C18).
